@@ -75,7 +75,7 @@ type Pool struct {
 }
 
 func NewPool(scratch, libs string, n int) *Pool {
-	p := &Pool{W: scratch, Libs: libs, N: n, Timeout: 10 * time.Second, Confirm: 60 * time.Second, free: make(chan *worker, n)}
+	p := &Pool{W: scratch, Libs: libs, N: n, Timeout: 90 * time.Second, Confirm: 240 * time.Second, free: make(chan *worker, n)}
 	for i := 0; i < n; i++ {
 		p.free <- nil
 	}
